@@ -50,10 +50,11 @@ class ConfigList(ComposedNode, list):
 
     def _del(self, index):
         index = self._validate_index(index)
+        ret = list.__getitem__(self, index)
         for i in range(index+1, len(self)):
             self[i-1] = self[i]
 
-        ret = ComposedNode.ayns.remove_child(self, len(self) - 1)
+        ComposedNode.ayns.remove_child(self, len(self) - 1)
         list.__delitem__(self, -1)
         return ret
 
